@@ -304,7 +304,18 @@ pub fn exec_case(case: &Value, want: &BTreeSet<String>) -> RunOutcome {
     let pre = prelude.clone();
     let rec = match run_isolated(hash_key, workers, move || {
         if let Some(p) = &pre {
-            crate::prelude::run(p, false);
+            // through the same recorded pipeline as the instance under test, so that the two solves
+            // allocate alike (a memo keyed by an address needs the address to come back)
+            match RefInstance::parse(p) {
+                Ok(pi) => {
+                    let p2 = p.clone();
+                    let _ = crate::seams::guarded(move || drop(run_server_pipeline(p2, pi, false)));
+                    crate::seams::clear_last_panic();
+                }
+                Err(_) => {
+                    crate::prelude::run(p, false);
+                }
+            }
         }
         run_server_pipeline(i2, inst2, fixpoint)
     }) {
